@@ -10,6 +10,7 @@ mod eng_disk;
 mod eng_hist;
 mod eng_rdf;
 mod eng_sched;
+mod eng_snap;
 mod eng_store;
 mod eng_txm;
 mod fw;
@@ -17,6 +18,7 @@ mod model_graph;
 mod prng;
 mod simlock;
 mod probe;
+mod probe2;
 
 use fw::Tier;
 
@@ -76,6 +78,9 @@ fn parse_args(rest: &[String]) -> Args {
 fn main() {
     fw::install_panic_hook();
     let argv: Vec<String> = std::env::args().collect();
+    if argv.len() >= 2 && argv[1] == "probe2" {
+        std::process::exit(probe2::run());
+    }
     if argv.len() >= 2 && argv[1] == "probe" {
         std::process::exit(probe::run());
     }
